@@ -114,6 +114,11 @@ func genCase(t *rapid.T, crash bool) Case {
 	for i := 0; i < nInv; i++ {
 		is := InvalidSpec{Base: rapid.IntRange(0, nValid-1).Draw(t, "invbase"), Kind: rapid.SampledFrom(invalidKinds).Draw(t, "invkind"),
 			Child: rapid.Bool().Draw(t, "invchild")}
+		if c.Engine == "ucon" && rapid.IntRange(0, 2).Draw(t, "uconkind") > 0 {
+			// under the real engine an edited header is first of all a header with a broken seal; the engine's own
+			// kinds are consensus-wise genuine (too few votes, foreign seal) or fully voted but invalid to execute
+			is.Kind = rapid.SampledFrom(uconInvalidKinds).Draw(t, "invkind2")
+		}
 		c.Invalid = append(c.Invalid, is)
 		bi := 1 + is.Base
 		n := 1
@@ -320,6 +325,7 @@ func runCase(c Case) (res kit.Result) {
 		}
 		before := main.bc.CurrentBlock()
 		mark := db.LogLen()
+		storedUnvalidated := storedUnvalidatedBlocks(main, u)
 		ierr, pv, stack := main.insert(blocks)
 		if pv != nil {
 			return kit.Fail(panicClass(stack), "call %d = InsertChain(%s) panics: %v\n%s", j, r.describe(blocks), pv, trimStack(stack))
@@ -327,7 +333,16 @@ func runCase(c Case) (res kit.Result) {
 		raw := db.LogSince(mark)
 		after := main.bc.CurrentBlock()
 		if fs := checkInvariants(main, u); len(fs) > 0 {
-			return kit.Fail("import-"+fs[0].kind, "after call %d = InsertChain(%s) (err=%v), head #%d %s -> #%d %s:\n%s",
+			cls := "import-" + fs[0].kind
+			if adoptedStoredUnvalidated(main, u, fs, storedUnvalidated) {
+				cls = clsStoredUnvalidated
+				if !strict && c.Crash == nil && kit.IsKnown(cls) {
+					// the node is beyond repair for this schedule: count it and stop the case here
+					r.label("excluded:" + cls)
+					return kit.OK(r.nt, r.sortedLabels()...)
+				}
+			}
+			return kit.Fail(cls, "after call %d = InsertChain(%s) (err=%v), head #%d %s -> #%d %s:\n%s",
 				j, r.describe(blocks), ierr, before.NumberU64(), short(before.Hash()), after.NumberU64(), short(after.Hash()), joinFails(fs))
 		}
 		// shape labels
@@ -645,6 +660,41 @@ func main2snap(r *run, raw []logEntry, base crashdb.Snapshot) crashdb.Snapshot {
 	return crashdb.SnapshotOf(crashdb.Materialise(base, raw))
 }
 
+// storedUnvalidatedBlocks: invalid blocks the node holds although it never accepted them (stored by
+// insertSidechain before execution), whose claimed state exists anyway.
+func storedUnvalidatedBlocks(n *node, u *universe) map[common.Hash]bool {
+	out := map[common.Hash]bool{}
+	for _, b := range u.offer {
+		if _, bad := u.invalid[b.Hash()]; bad && n.bc.HasBlock(b.Hash(), b.NumberU64()) && n.bc.HasState(b.Root()) {
+			out[b.Hash()] = true
+		}
+	}
+	return out
+}
+
+// adoptedStoredUnvalidated reports whether the failures are explained by the recorded finding
+// clsStoredUnvalidated: the lowest invalid canonical block was already stored (rejected or never
+// executed) before the call and the state its header names existed; nothing else is wrong.
+func adoptedStoredUnvalidated(n *node, u *universe, fs []invFail, stored map[common.Hash]bool) bool {
+	var low *types.Block
+	for num := uint64(1); num <= n.bc.CurrentBlock().NumberU64() && low == nil; num++ {
+		if b := n.bc.GetBlockByNumber(num); b != nil {
+			if _, bad := u.invalid[b.Hash()]; bad {
+				low = b
+			}
+		}
+	}
+	if low == nil || !stored[low.Hash()] {
+		return false
+	}
+	for _, f := range fs {
+		if f.kind != fInvalid && !(f.kind == fBlockIndex && f.num >= low.NumberU64()) {
+			return false
+		}
+	}
+	return true
+}
+
 // continueAfterCrash restarts at prefix k and offers the remaining calls (at most 3)
 // without re-offering the interrupted one: the restarted node is an ordinary node, so
 // the first sentence of the statement must hold after every further import.
@@ -662,13 +712,7 @@ func (r *run) continueAfterCrash(j, k int, base crashdb.Snapshot, L []logEntry, 
 			continue
 		}
 		before := n.bc.CurrentBlock()
-		// invalid blocks the node holds although it never accepted them, whose claimed state exists anyway
-		storedUnvalidated := map[common.Hash]bool{}
-		for _, b := range u.offer {
-			if _, bad := u.invalid[b.Hash()]; bad && n.bc.HasBlock(b.Hash(), b.NumberU64()) && n.bc.HasState(b.Root()) {
-				storedUnvalidated[b.Hash()] = true
-			}
-		}
+		storedUnvalidated := storedUnvalidatedBlocks(n, u)
 		ierr, pv, stack := n.insert(blocks)
 		if pv != nil {
 			out := kit.Fail("post-crash-"+panicClass(stack), "%s\nthe restarted node then imports call %d = InsertChain(%s) and panics: %v\n%s", where(k), i, r.describe(blocks), pv, trimStack(stack))
@@ -678,28 +722,13 @@ func (r *run) continueAfterCrash(j, k int, base crashdb.Snapshot, L []logEntry, 
 			r.label("continued-reorg")
 		}
 		if fs := checkInvariants(n, u); len(fs) > 0 {
-			// known finding: the lowest invalid canonical block was already stored (rejected or never executed)
-			// before this call and the state its header names existed
-			var low *types.Block
-			for num := uint64(1); num <= n.bc.CurrentBlock().NumberU64() && low == nil; num++ {
-				if b := n.bc.GetBlockByNumber(num); b != nil {
-					if _, bad := u.invalid[b.Hash()]; bad {
-						low = b
-					}
-				}
-			}
-			onlyInvalid := true
-			for _, f := range fs {
-				if f.kind != fInvalid && !(f.kind == fBlockIndex && low != nil && f.num >= low.NumberU64()) {
-					onlyInvalid = false
-				}
-			}
-			if low != nil && onlyInvalid && storedUnvalidated[low.Hash()] && !strict && kit.IsKnown(clsStoredUnvalidated) {
+			explained := adoptedStoredUnvalidated(n, u, fs, storedUnvalidated)
+			if explained && !strict && kit.IsKnown(clsStoredUnvalidated) {
 				r.label("excluded:" + clsStoredUnvalidated)
 				return nil
 			}
 			cls := "post-crash-" + fs[0].kind
-			if low != nil && onlyInvalid && storedUnvalidated[low.Hash()] {
+			if explained {
 				cls = clsStoredUnvalidated
 			}
 			out := kit.Fail(cls, "%s\nthe restarted node then imports call %d = InsertChain(%s) (err=%v):\n%s", where(k), i, r.describe(blocks), ierr, joinFails(fs))
